@@ -85,7 +85,7 @@ def render(rng, model, fancy=True):
             ind = rng.choice(["", "", " ", "\t", "  "]) if fancy else ""
             pre = rng.choice(["", "", " ", "\t", "  "]) if fancy else ""
             post = rng.choice(["", "", " ", "\t ", "  "]) if fancy else ""
-            trail = rng.choice(["", "", " ", "\t", "  \t"]) if fancy else ""
+            trail = rng.choice(["", "", " ", "\t", "  \t", "\r", " \r", "\x0c"]) if fancy else ""       # also CR LF line ends: trailing white space of every kind is dropped
             line = ind + k + pre + "=" + post + render_value(rng, v, fancy) + trail
             if fancy and rng.random() < 0.1:
                 # the value's last line ends in a backslash and the next line is empty or blank (Spec/Layout.v, ELTrail)
